@@ -237,7 +237,15 @@ impl Transaction {
         latest_block_id: u64,
         genesis_period: u64,
     ) -> Result<Transaction, Error> {
-        let total_payment: Currency = payments.iter().sum();
+        // (the amounts are the caller's: summed without wrapping, or the funds check below is passed by a
+        // request for more than u64::MAX)
+        let mut total_payment: Currency = 0;
+        for payment in payments.iter() {
+            total_payment = match total_payment.checked_add(*payment) {
+                Some(sum) => sum,
+                None => return Err(Error::from(ErrorKind::InvalidInput)),
+            };
+        }
         trace!(
             "generating transaction : payments = {:?}, fee = {:?}",
             total_payment,
@@ -255,7 +263,10 @@ impl Transaction {
             with_fee = 0;
         }
 
-        let total_requested = total_payment + with_fee;
+        let total_requested = match total_payment.checked_add(with_fee) {
+            Some(sum) => sum,
+            None => return Err(Error::from(ErrorKind::InvalidInput)),
+        };
         trace!(
             "in generate transaction. available: {} and payment: {} and fee: {}",
             available_balance,
